@@ -262,3 +262,76 @@ pub fn err_brief(e: &sonic_rs::Error) -> String {
 pub fn err_obs(e: &sonic_rs::Error) -> (usize, usize, usize, String) {
     (e.offset(), e.line(), e.column(), format!("{:?}", e.classify()))
 }
+
+/// structural equality of two reference trees over their own texts: same nesting, order, decoded
+/// strings and keys, booleans/null, numbers by C07 class (bit-exact floats)
+pub fn tree_eq(a: &R, ta: &[u8], b: &R, tb: &[u8], path: &mut String) -> Result<(), String> {
+    match (&a.k, &b.k) {
+        (K::Null, K::Null) => Ok(()),
+        (K::Bool(x), K::Bool(y)) if x == y => Ok(()),
+        (K::Num(x), K::Num(y)) => {
+            if x == y {
+                Ok(())
+            } else {
+                Err(format!(
+                    "{}: number {:?} ({}) vs {:?} ({})",
+                    path,
+                    String::from_utf8_lossy(&ta[a.start..a.end]),
+                    fmt_refnum(*x),
+                    String::from_utf8_lossy(&tb[b.start..b.end]),
+                    fmt_refnum(*y)
+                ))
+            }
+        }
+        (K::Str { decoded: x, .. }, K::Str { decoded: y, .. }) => {
+            if x.is_some() && x == y {
+                Ok(())
+            } else {
+                Err(format!("{}: string {:?} vs {:?}", path, x, y))
+            }
+        }
+        (K::Arr(x), K::Arr(y)) => {
+            if x.len() != y.len() {
+                return Err(format!("{}: array len {} vs {}", path, x.len(), y.len()));
+            }
+            let l = path.len();
+            for (i, (p, q)) in x.iter().zip(y.iter()).enumerate() {
+                use std::fmt::Write;
+                let _ = write!(path, "/{}", i);
+                tree_eq(p, ta, q, tb, path)?;
+                path.truncate(l);
+            }
+            Ok(())
+        }
+        (K::Obj(x), K::Obj(y)) => {
+            if x.len() != y.len() {
+                return Err(format!("{}: object len {} vs {}", path, x.len(), y.len()));
+            }
+            let l = path.len();
+            for ((ka, va), (kb, vb)) in x.iter().zip(y.iter()) {
+                if ka.key_str().is_none() || ka.key_str() != kb.key_str() {
+                    return Err(format!("{}: key {:?} vs {:?}", path, ka.key_str(), kb.key_str()));
+                }
+                path.push('/');
+                path.push_str(ka.key_str().unwrap());
+                tree_eq(va, ta, vb, tb, path)?;
+                path.truncate(l);
+            }
+            Ok(())
+        }
+        _ => Err(format!("{}: kind {} vs {}", path, kname(&a.k), kname(&b.k))),
+    }
+}
+
+/// visit every string literal node (keys included) of a tree
+pub fn for_each_string<'a>(r: &'a R, f: &mut dyn FnMut(&'a R)) {
+    match &r.k {
+        K::Str { .. } => f(r),
+        K::Arr(v) => v.iter().for_each(|x| for_each_string(x, f)),
+        K::Obj(v) => v.iter().for_each(|(k, x)| {
+            f(k);
+            for_each_string(x, f)
+        }),
+        _ => {}
+    }
+}
